@@ -87,8 +87,15 @@ def repr_helper(instance, *args, defaults=None, **kwargs):
     )
 
 
-@lru_cache(4096)
 def fully_qualified_name(x):
+    try:
+        return _fully_qualified_name_cached(x)
+    except TypeError:
+        # x is not hashable.
+        return _fully_qualified_name(x)
+
+
+def _fully_qualified_name(x):
     qualname = getattr(x, "__qualname__", None)
     if not qualname:
         if callable(x):
@@ -103,3 +110,6 @@ def fully_qualified_name(x):
     ):
         return qualname
     return f"{module}.{qualname}"
+
+
+_fully_qualified_name_cached = lru_cache(4096)(_fully_qualified_name)
